@@ -1884,8 +1884,10 @@ class BootstrapElectionModel(BaseElectionModel):
             # how many states have lower_q (or more) realizations with GOP victory
             lower_states = np.mean(agg_pred_margin_dist < 0, axis=1) > lower_q
 
-            potential_losses = pred_states - (~lower_states).astype(int)
-            potential_gains = upper_states.astype(int) - pred_states
+            # a contest whose bootstrap realizations all disagree with its point prediction cannot be lost
+            # (or gained) a negative number of times
+            potential_losses = np.maximum(pred_states - (~lower_states).astype(int), 0)
+            potential_gains = np.maximum(upper_states.astype(int) - pred_states, 0)
 
         if self.called_contests is not None:
             # if there is a call, there is no uncertainty in the outcome
